@@ -35,11 +35,12 @@ def rewrite_future(rng, market, T, kind):
         if k == "remove_file" and past:
             k = "remove_rows"
         if k == "scale":
-            f = rng.choice([0.1, 0.5, 2.0, 10.0])
+            # from a mild drift to a collapse / explosion of the whole price scale (whole-sample statistics move)
+            f = rng.choice([0.1, 0.5, 2.0, 10.0, 1e-4, 1e-3, 1e3, 1e5])
             for r in fut:
                 for i in (1, 2, 3, 4, 5):
                     if r[i] is not None:
-                        r[i] = mk.r4(r[i] * f)
+                        r[i] = max(mk.r4(r[i] * f), 0.0001)
         elif k == "new_path":
             p = rng.uniform(1.0, 500.0)
             for r in fut:
@@ -148,7 +149,7 @@ def _world_run(plan, market, ctx):
     from qstrader.data.daily_bar_csv import CSVDailyBarDataSource
     from qstrader.asset.equity import Equity
     from ..core import ts
-    dirpath = mk.scratch_dir()
+    dirpath = mk.scratch_dir(cfg.get("dir_suffix", ""))
     try:
         mk.write_market(market, dirpath)
         try:
